@@ -27,11 +27,11 @@ Definition tx_ev_ok (ev : event) : Prop :=
 Lemma ingress_inv : forall cx g s ip r s' reply tags,
   inv g s -> ctx_ok cx -> repr_ok r ->
   iface_tcp_ingress cx s ip r = Ok (s', reply, tags) ->
-  exists g', inv g' s' /\ ghost_rel g g' /\ learned s r s' /\ proc_ghost cx g s r g' /\
+  exists g', inv g' s' /\ ghost_rel g g' /\ learned s r s' /\ proc_ghost cx g s r g' s' /\
              (g' = g \/ tcp_accepts s ip r = true).
 Proof.
   intros cx g s ip r s' reply tags Hinv Hcx Hr H. unfold iface_tcp_ingress in H.
-  assert (Hsame : exists g', inv g' s /\ ghost_rel g g' /\ learned s r s /\ proc_ghost cx g s r g' /\
+  assert (Hsame : exists g', inv g' s /\ ghost_rel g g' /\ learned s r s /\ proc_ghost cx g s r g' s /\
                              (g' = g \/ tcp_accepts s ip r = true)).
   { exists g. split; [exact Hinv|]. split; [left; apply same_epoch_refl|].
     split; [apply learned_txv; reflexivity|]. split; [left; reflexivity|left; reflexivity]. }
